@@ -51,6 +51,32 @@ def unit(p, ctx):
         oracles.c12_check(ctx, n, M.edges, rem, tcur, [(t.est, t.eft, t.lst, t.lft) for t in M.tasks], M.workflow.critical_path_length, "unit:update%d" % r)
         if r == 1:
             ctx.cover("unit:second-update")
+    if p.get("grow"):
+        # the workflow grows after it has been used: a new head task in front of task 0 and a new tail task behind the last one
+        from pDESy.model.base_task import BaseTask
+
+        head = BaseTask("Thead", ID="thead", default_work_amount=p["gh"])
+        tail = BaseTask("Ttail", ID="ttail", default_work_amount=p["gt"])
+        M.tasks[0].append_input_task(head)
+        tail.append_input_task(M.tasks[n - 1])
+        M.workflow.task_list.append(head)
+        M.workflow.task_list.append(tail)
+        for how in ("update", "initialize"):
+            if how == "update":
+                ok, e = ctx.call(M.workflow.update_PERT_data, tcur)
+                t_now = tcur
+            else:
+                ok, e = ctx.call(M.workflow.initialize)
+                t_now = 0
+            if not ok:
+                ctx.fail("C12:unit:grown-%s-raised" % how)
+                return
+            # reference on the grown network: indices shifted so that the index order stays topological
+            order = [head] + list(M.tasks) + [tail]
+            edges2 = [(0, 1, 0)] + [(a + 1, b + 1, k) for (a, b, k) in M.edges] + [(n, n + 1, 0)]
+            rem2 = [t.remaining_work_amount for t in order]
+            oracles.c12_check(ctx, n + 2, edges2, rem2, t_now, [(t.est, t.eft, t.lst, t.lft) for t in order], M.workflow.critical_path_length, "unit:grown-%s" % how)
+        ctx.cover("unit:grown")
     ctx.sig = ("unit", p["rounds"], repr(spec["edges"]))
     ctx.nontrivial = p["rounds"] >= 1 and len(M.edges) >= 1
 
@@ -61,6 +87,12 @@ _sim_obligations = obligations
 def obligations(tier, seed):
     obs = _sim_obligations(tier, seed)
     thorough = tier == "thorough"
+    for es in list(profiles.all_edge_sets(3)):
+        spec = {"tasks": [{"w": "$w%d" % i} for i in range(3)], "edges": [[i, j, 0] for (i, j) in es], "teams": []}
+        obs.append({"name": "unit/grow/T=3/edges=%s" % (",".join("%d>%d" % e for e in es) or "-"), "harness": "unit",
+                    "cube": {"spec": spec, "rounds": 1, "grow": True},
+                    "params": [["w%d" % i, 0, 2] for i in range(3)] + [["dt0", 0, 2]] + [["r0_%d" % i, 0, 2] for i in range(3)] + [["gh", 0, 2], ["gt", 0, 2]],
+                    "timeout": 900 if thorough else 150, "engine": "zsym"})
     for T in ((2, 3, 4) if not thorough else (2, 3, 4, 5)):
         sets = list(profiles.all_edge_sets(T))
         if T == 4 and not thorough:
